@@ -14,6 +14,7 @@ func init() {
 	vRegister("VerifHarness_C16_AuthorizeQuery", VerifHarness_C16_AuthorizeQuery)
 	vRegister("VerifHarness_C16_AuthorizeWrite", VerifHarness_C16_AuthorizeWrite)
 	vRegister("VerifHarness_C16_CredentialCache", VerifHarness_C16_CredentialCache)
+	vRegister("VerifHarness_C16_CredentialCacheCoalesced", VerifHarness_C16_CredentialCacheCoalesced)
 }
 
 var vC16DBs = []string{"", "a", "b"}
@@ -246,4 +247,64 @@ func VerifHarness_C16_CredentialCache() {
 	}
 	vObserve("exists", exists)
 	vReach("C16.cache.end")
+}
+
+// Two users and coalesced updates: a data node's long poll returns the latest metadata, so one
+// refresh may carry password changes / removals of several cached users at once. Every one of
+// them must stop working through the cache.
+func VerifHarness_C16_CredentialCacheCoalesced() {
+	names := []string{"u", "w"}
+	cur := []int{0, 0}
+	exists := []bool{true, true}
+	data := &Data{Users: []UserInfo{{Name: "u", Hash: vC16Hash(vC16Passwords[0])}, {Name: "w", Hash: vC16Hash(vC16Passwords[0])}}}
+	c := &Client{cacheData: data, authCache: map[string]authUser{}}
+	maxSteps, nPw := 3, 2
+	if vThorough() {
+		maxSteps = 4
+	}
+	steps := vLen("steps", 1, maxSteps)
+	for s := 0; s < steps; s++ {
+		if vBool("refresh") {
+			// one metadata refresh carrying changes for a subset of the users
+			mask := vLen("changedUsers", 1, 3)
+			nd := c.cacheData.Clone()
+			for i := range names {
+				if mask&(1<<uint(i)) == 0 || !exists[i] {
+					continue
+				}
+				if vBool("removed") {
+					exists[i] = false
+					var keep []UserInfo
+					for _, ui := range nd.Users {
+						if ui.Name != names[i] {
+							keep = append(keep, ui)
+						}
+					}
+					nd.Users = keep
+				} else {
+					cur[i] = vChoice("newPassword", nPw)
+					for j := range nd.Users {
+						if nd.Users[j].Name == names[i] {
+							nd.Users[j].Hash = vC16Hash(vC16Passwords[cur[i]])
+						}
+					}
+				}
+			}
+			c.cacheData = nd
+			c.updateAuthCache()
+		} else {
+			i := vChoice("user", 2)
+			try := vChoice("tryPassword", nPw)
+			u, err := c.Authenticate(names[i], vC16Passwords[try])
+			ok := err == nil && u != nil
+			vAssert(ok == (exists[i] && try == cur[i]), "C16.password-accepted-iff-current")
+		}
+		for name, au := range c.authCache {
+			ui := c.cacheData.user(name)
+			vAssert(ui != nil && ui.Hash == au.bhash, "C16.cache-entry-matches-current-hash")
+		}
+	}
+	vObserve("existsU", exists[0])
+	vObserve("existsW", exists[1])
+	vReach("C16.cache2.end")
 }
